@@ -7,6 +7,7 @@ import (
 	"sync"
 	"sync/atomic"
 	"syscall"
+	"time"
 
 	"github.com/goblimey/go-ntrip/rtcm/utils"
 
@@ -259,6 +260,10 @@ func mk2(pos, width uint, signed bool) string {
 }
 
 func monC14(c *child.Ctx, replay json.RawMessage) {
+	// an extraction is a pure computation: one that is found parked on a lock or a
+	// channel inside the repository's code in six samples a second apart, while nothing
+	// else moves, will never return (the logical criterion of waitOrHang)
+	go waitOrHang(make(chan struct{}), 12*time.Hour, "a bit-field extraction did not return")
 	if replay != nil {
 		var k bitsCase
 		json.Unmarshal(replay, &k)
